@@ -35,6 +35,7 @@ const (
 	slotF2   = -5
 	slotBig  = -6
 	slotSub  = -7 // d1/sub (a directory inside d1)
+	slotBig2 = -8 // a second large file (knob big=2)
 )
 
 var concNames = []string{"a", "b", "c"}
@@ -73,6 +74,14 @@ func (concEngine) Gen(prop string, seed uint64, tier string) *Spec {
 	focusName := concNames[rng.Intn(len(concNames))]
 	focusName2 := concNames[rng.Intn(len(concNames))]
 	focus := rng.Chance(0.7)
+	if prop != "C14" && prop != "C01" && prop != "C07" && rng.Chance(0.08) {
+		// two large files in the root, and most operations on them by handle and by
+		// name: two background shrinkers at once, truncations, removals and renames of
+		// files whose freeing is still in progress
+		spec.Knobs["big"] = 2
+		spec.Disk += 3000
+		focus, focusDir, focusName, focusName2 = true, slotRoot, "big", "big2"
+	}
 	// a quarter of the runs: every client talks to the real RPC server loop over its own
 	// simulated connection (XDR codec, request-buffer pool, one handler goroutine per request)
 	if prop != "C14" && rng.Chance(0.25) {
@@ -134,6 +143,9 @@ func (concEngine) Gen(prop string, seed uint64, tier string) *Spec {
 			if len(own) > 0 && rng.Chance(0.5) {
 				return own[rng.Intn(len(own))]
 			}
+			if spec.Knobs["big"] == 2 && rng.Chance(0.7) {
+				return []int{slotBig, slotBig2}[rng.Intn(2)]
+			}
 			return []int{slotF1, slotF2, slotF1, slotBig}[rng.Intn(4)]
 		}
 		for i := 0; i < n; i++ {
@@ -143,6 +155,10 @@ func (concEngine) Gen(prop string, seed uint64, tier string) *Spec {
 				// mostly writes (two thirds UNSTABLE) and COMMITs on a few files; little else,
 				// because every stable operation flushes the log and closes the windows
 				weights = []int{3, 2, 2, 45, 5, 4, 1, 1, 1, 0, 3, 0, 1, 1}
+			}
+			if spec.Knobs["big"] == 2 {
+				// truncations, removals and renames of the two large files
+				weights = []int{4, 12, 14, 8, 4, 30, 3, 2, 1, 1, 4, 0, 1, 2}
 			}
 			switch rng.Pick(weights) {
 			case 0:
@@ -397,6 +413,19 @@ func (x *concRun) main() {
 			x.setupCall(&In{K: "write", Obj: big.H, Off: off, Count: 100 * 4096, Data: patData(901+off, 0, 100*4096), How: 0})
 		}
 		x.setupCall(&In{K: "commit", Obj: big.H})
+	}
+	if spec.knob("big", 0) == 2 {
+		big2 := x.setupCall(&In{K: "create", Obj: rootH, Name: "big2", How: 1})
+		x.setup[slotBig2] = big2.H
+		for _, h := range []string{big.H, big2.H} {
+			for off := uint64(700 * 4096); off < 1300*4096; off += 100 * 4096 {
+				x.setupCall(&In{K: "write", Obj: h, Off: off, Count: 100 * 4096, Data: patData(902+off, 0, 100*4096), How: 0})
+			}
+		}
+		for off := uint64(0); off < 700*4096; off += 100 * 4096 {
+			x.setupCall(&In{K: "write", Obj: big2.H, Off: off, Count: 100 * 4096, Data: patData(903+off, 0, 100*4096), How: 0})
+		}
+		x.setupCall(&In{K: "commit", Obj: big2.H})
 	}
 	if halfFreed {
 		x.setupCall(&In{K: "remove", Obj: rootH, Name: "halffreed"})
